@@ -85,9 +85,25 @@ func TestVerifC03Fragment(t *testing.T) {
 			}
 		}
 		if rng.Bool() {
+			// contiguous: a run container after the next snapshot
 			for c := uint64(200); c < 200+uint64(rng.Intn(6000)); c++ {
 				f.setBit(1, c)
 				set(1, c, true)
+			}
+		}
+		if rng.Bool() {
+			// every other column, more than 4096 of them in one container: stays a BITMAP container,
+			// read straight out of the file mapping after a snapshot or reopen
+			rowD := uint64(rng.Intn(3))
+			nd := 4097 + rng.Intn(2000)
+			rowsD, colsD := make([]uint64, 0, nd), make([]uint64, 0, nd)
+			for k := 0; k < nd; k++ {
+				c := uint64(2 * k)
+				rowsD, colsD = append(rowsD, rowD), append(colsD, c)
+				set(rowD, c, true)
+			}
+			if err := f.bulkImport(rowsD, colsD, &ImportOptions{}); err != nil {
+				t.Fatalf("dense seed import: %v", err)
 			}
 		}
 		var held []*c03Held
